@@ -56,6 +56,9 @@ fn workload(rng: &mut Rng, model: &Model, bufsize: Option<usize>) -> Vec<Op> {
             let len = *len as u64;
             let op = match rng.below(11) {
                 0 => Op::HRead { h, n: *rng.pick(&[1usize, 10, 64, 1000, 1024, 1025, 5000]) },
+                // single read() calls at least as large as the handle's buffer (a library may
+                // serve those past its buffer)
+                8 if cap <= 70_000 => Op::HRead { h, n: *rng.pick(&[cap, cap + 1, 2 * cap, 70_000]) },
                 1 | 2 => Op::HReadFull { h, n: *rng.pick(&[1usize, 100, 1024, 1500, 4096, 70_000]) },
                 3 => Op::HFillBuf { h },
                 4 => Op::HConsume { h, n: rng.range(0, 2000) as usize },
@@ -111,7 +114,10 @@ pub fn gen(seed: u64, idx: u64, _tier: Tier) -> Case {
         set_len_shrink_only: false,
     };
     let _ = sector;
-    let n = rng.range(2, 8) as usize;
+    // every fourth workload is tiny (one or two small streams, a handful of calls), so that
+    // its seam-call count stays below 150 and ALL pairs of fault positions are enumerated
+    let tiny = !bigv3 && idx % 4 == 2;
+    let n = if tiny { 2 } else { rng.range(2, 8) as usize };
     let big = bigv3;
     let (build, model) = {
         let mut g = Gen::new(&mut rng, &cfg, Model::new(version));
@@ -140,7 +146,12 @@ pub fn gen(seed: u64, idx: u64, _tier: Tier) -> Case {
     c.params.insert("build_len".into(), build.len() as i64);
     c.params.insert("strict".into(), if bigv3 { ((idx / 3) % 3 == 2) as i64 } else { rng.below(2) as i64 });
     c.ops = build;
-    let w = workload(&mut rng, &model, c.bufsize);
+    let mut w = workload(&mut rng, &model, c.bufsize);
+    if tiny {
+        // walk, one stream: open + at most 5 handle calls + final read
+        let cut = w.iter().position(|op| matches!(op, Op::HOpen { .. })).map(|p| (p + 7).min(w.len())).unwrap_or(w.len());
+        w.truncate(cut);
+    }
     c.ops.extend(w);
     c.params.insert("pair_sample_seed".into(), (rng.next_u64() >> 2) as i64);
     c.params.insert("slice".into(), slice as i64);
@@ -237,6 +248,23 @@ fn execute(image: &[u8], truth: &Model, reference: Option<&[Res]>, work: &[Op], 
                     if !same_as_ref && !faulted && fired_now == 0 {
                         out.violation = Some(("err-without-fault".into(), op.kind().into(), format!("step {} {}: Err({:?}: {}) although no fault was injected", i, op.to_json(), k, m), i));
                         break 'ops;
+                    }
+                    // std::io::Read: "If an error is returned then it must be guaranteed that no
+                    // bytes were read" - and a caller that retries takes what comes next for the
+                    // next bytes.  So a failed read()/fill_buf()/seek() must leave the position
+                    // the handle reports where it was.
+                    if faulted && matches!(op, Op::HRead { .. } | Op::HFillBuf { .. } | Op::HSeek { .. }) {
+                        if let (Some(pb), Res::Num(pa)) = (pos_before, lib.exec(&Op::HPos { h: op.handle().unwrap() })) {
+                            if pa != pb {
+                                out.violation = Some((
+                                    "position-moved-by-failed-call".into(),
+                                    op.kind().into(),
+                                    format!("step {} {} (attempt {}) failed with {:?} ({}), and the handle's position went from {} to {}: a retry would skip or repeat bytes", i, op.to_json(), tries, k, m, pb, pa),
+                                    i,
+                                ));
+                                break 'ops;
+                            }
+                        }
                     }
                     if !same_as_ref && tries < 3 && retry {
                         continue; // retry the same call on the same handle
@@ -419,7 +447,13 @@ pub fn run(case: &Case, _known: &BTreeSet<String>) -> Outcome {
         true
     };
     // both caller policies: retry the failed call, or carry on with the script
-    let mut run_plan = |o: &mut Outcome, plan: Vec<Fault>| -> bool { run_plan_policy(o, plan.clone(), true) && run_plan_policy(o, plan, false) };
+    let mut run_plan_mode = |o: &mut Outcome, plan: Vec<Fault>, mode: u8| -> bool {
+        match mode {
+            1 => run_plan_policy(o, plan, true),
+            2 => run_plan_policy(o, plan, false),
+            _ => run_plan_policy(o, plan.clone(), true) && run_plan_policy(o, plan, false),
+        }
+    };
     if !case.faults.is_empty() {
         if case.params.contains_key("no_retry") {
             // explicit replay of one policy
@@ -432,7 +466,7 @@ pub fn run(case: &Case, _known: &BTreeSet<String>) -> Outcome {
             }
             return o;
         }
-        run_plan(&mut o, case.faults.clone());
+        run_plan_mode(&mut o, case.faults.clone(), 0);
     } else {
         let (slice, nslices) = (case.param("slice", 0) as u64, case.param("nslices", 1).max(1) as u64);
         'enumerate: {
@@ -440,7 +474,13 @@ pub fn run(case: &Case, _known: &BTreeSet<String>) -> Outcome {
                 if k % nslices != slice {
                     continue;
                 }
-                if !run_plan(&mut o, vec![Fault { k, kind: FaultKind::Fail }]) {
+                if !run_plan_mode(&mut o, vec![Fault { k, kind: FaultKind::Fail }], 0) {
+                    break 'enumerate;
+                }
+                // the same position once more with another error kind (or a premature
+                // "0 bytes"), drawn per position: failures are not all ErrorKind::Other
+                let flavour = 1 + ((k + case.param("pair_sample_seed", 0) as u64) % crate::disk::FLAVOURS as u64) as u8;
+                if !run_plan_mode(&mut o, vec![Fault { k, kind: FaultKind::FailAs { flavour } }], 1 + (k % 2) as u8) {
                     break 'enumerate;
                 }
             }
@@ -451,7 +491,7 @@ pub fn run(case: &Case, _known: &BTreeSet<String>) -> Outcome {
                         continue;
                     }
                     for k2 in k1 + 1..=n + 4 {
-                        if !run_plan(&mut o, vec![Fault { k: k1, kind: FaultKind::Fail }, Fault { k: k2, kind: FaultKind::Fail }]) {
+                        if !run_plan_mode(&mut o, vec![Fault { k: k1, kind: FaultKind::Fail }, Fault { k: k2, kind: FaultKind::Fail }], 0) {
                             break 'enumerate;
                         }
                     }
@@ -463,7 +503,7 @@ pub fn run(case: &Case, _known: &BTreeSet<String>) -> Outcome {
                         continue;
                     }
                     for d in [1u64, 2, 3, 8] {
-                        if !run_plan(&mut o, vec![Fault { k: k1, kind: FaultKind::Fail }, Fault { k: k1 + d, kind: FaultKind::Fail }]) {
+                        if !run_plan_mode(&mut o, vec![Fault { k: k1, kind: FaultKind::Fail }, Fault { k: k1 + d, kind: FaultKind::Fail }], 0) {
                             break 'enumerate;
                         }
                     }
@@ -472,7 +512,7 @@ pub fn run(case: &Case, _known: &BTreeSet<String>) -> Outcome {
                 for _ in 0..n.min(400) / nslices {
                     let k1 = rng.range(1, n);
                     let k2 = rng.range(k1 + 1, n + 20);
-                    if !run_plan(&mut o, vec![Fault { k: k1, kind: FaultKind::Fail }, Fault { k: k2, kind: FaultKind::Fail }]) {
+                    if !run_plan_mode(&mut o, vec![Fault { k: k1, kind: FaultKind::Fail }, Fault { k: k2, kind: FaultKind::Fail }], 0) {
                         break 'enumerate;
                     }
                 }
